@@ -413,6 +413,11 @@ SEED_PROGS = [
     {'ins': [['U', 'Saw', 'audio', [C('1')]], ['U', 'FFT', 'control', [C('3'), V(0)]], ['U', 'Saw', 'audio', [C('2')]],
              ['U', 'IFFT', 'audio', [V(1)]], ['U', 'RandSeed', 'control', [C('1'), C('7')]], ['U', 'WhiteNoise', 'audio', []],
              ['out', 'audio', C('0'), [V(3), V(2), V(5)]]]},
+    # F21: a dead unit reads X after X was rewritten during its own elimination (stale self.inputs tuple):
+    # p, q, b; a = p + q; X = a + b; W = a * X; Y = W * X (dead); Out(X)
+    {'ins': [['U', 'Saw', 'audio', [C('1')]], ['U', 'Saw', 'audio', [C('2')]], ['U', 'Saw', 'audio', [C('3')]],
+             ['bin', 'add', V(0), V(1)], ['bin', 'add', V(3), V(2)], ['bin', 'mul', V(3), V(4)], ['bin', 'mul', V(5), V(4)],
+             ['out', 'audio', C('0'), [V(4)]]]},
     # invalid: control signal into Out.ar
     {'ins': [['U', 'Saw', 'control', [C('1')]], ['out', 'audio', C('0'), [V(0)]]]},
     {'ins': [['U', 'Saw', 'control', [C('1')]], ['raise', 'exc']]},
